@@ -484,12 +484,15 @@ theorem contents_remove (t : Item ι V) (id : ι) :
           simp
     exact key cs fun _ h => h
 
-theorem retain_contents_leaf (p : List Char) (vs : List (ι × V)) (f : ι → V → Bool) :
-    (vs.filter fun kv => f kv.1 kv.2).map (mkEntry p) = refRetain (vs.map (mkEntry p)) f := by
-  simp [refRetain, List.filter_map, Function.comp_def, mkEntry]
+theorem retain_contents_leaf (p : List Char) (vs : List (ι × V)) (f : ι → V → Option V) :
+    (retainVals f vs).map (mkEntry p) = refRetain (vs.map (mkEntry p)) f := by
+  simp only [retainVals, refRetain, List.map_filterMap, List.filterMap_map]
+  congr 1
+  funext kv
+  cases hf : f kv.1 kv.2 <;> simp [mkEntry, Function.comp_def, hf]
 
 /-- `retain(f)` keeps exactly the entries whose (id, value) satisfy `f`. -/
-theorem contents_retain (t : Item ι V) (f : ι → V → Bool) :
+theorem contents_retain (t : Item ι V) (f : ι → V → Option V) :
     (t.retain f).contents = refRetain t.contents f := by
   induction t using Item.ind with
   | hE ic => rw [retain_empty]; simp [refRetain]
@@ -501,7 +504,7 @@ theorem contents_retain (t : Item ι V) (f : ι → V → Bool) :
   | hN rx cs ih =>
     rw [retain_node]
     have : contentsL (retainL cs f) = refRetain (contentsL cs) f := by
-      rw [retainL_eq, contentsL_eq, contentsL_eq, refRetain, List.filter_flatMap, List.flatMap_assoc]
+      rw [retainL_eq, contentsL_eq, contentsL_eq, refRetain, List.filterMap_flatMap, List.flatMap_assoc]
       apply flatMap_congr'
       intro c hc
       have := contentsL_keepNonEmpty (c.retain f)
